@@ -539,6 +539,11 @@ pub fn check<W: World>(w: &W, tier: Tier, seed: u64) -> i32 {
     if !zero_probes.is_empty() {
         println!("note: reach probes at zero: {:?}", zero_probes);
     }
+    // observations that belong to another property never fail this check, but they are not silent
+    let foreign: Vec<String> = stats.counters.iter().filter(|(k, _)| k.starts_with("note.other_property.")).map(|(k, v)| format!("{}={}", &k["note.other_property.".len()..], v)).collect();
+    if !foreign.is_empty() {
+        println!("note: observations belonging to other properties (runs ended there): {}", foreign.join(", "));
+    }
     exit
 }
 
